@@ -2,3 +2,4 @@ import GeoVerif.Props.C04
 import GeoVerif.Props.C07
 import GeoVerif.Props.C13
 import GeoVerif.Props.C16
+import GeoVerif.Props.C17
